@@ -499,6 +499,8 @@ pub fn run_history_property(a: &WorkerArgs) -> WorkerReport {
                     6 => f.group == Group::Sorted || f.op == "sorted",
                     8 => matches!(f.op, "iter_mut" | "pop_if" | "retain"),
                     11 => matches!(f.op, "push_increase" | "push_decrease") && f.group != Group::Tables,
+                    9 => f.op == "iter_mut" && matches!(f.group, Group::Alias | Group::IterMutContract | Group::Panic),
+                    13 => matches!(f.op, "iter" | "ref_into_iter" | "into_iter" | "drain" | "sorted_iter") && matches!(f.group, Group::IterStd | Group::Panic),
                     _ => false,
                 };
                 if owned && !acc.rep.violations.iter().any(|v| v.signature == f.signature()) {
@@ -633,10 +635,17 @@ pub fn capacity_twin_check(case: &Case) -> Option<Failure> {
         t.ops = c
             .ops
             .iter()
-            .filter(|o| !matches!(o, Op::Reserve { .. } | Op::Shrink))
+            .filter(|o| {
+                let inner = if let Op::DuringUnwind { op } = o { op.as_ref() } else { *o };
+                !matches!(inner, Op::Reserve { .. } | Op::Shrink)
+            })
             .cloned()
             .map(|o| match o {
                 Op::Append { pairs, swap_roles, mirror, .. } => Op::Append { pairs, swap_roles, mirror, cap: 0 },
+                Op::DuringUnwind { op } => match *op {
+                    Op::Append { pairs, swap_roles, mirror, .. } => Op::DuringUnwind { op: Box::new(Op::Append { pairs, swap_roles, mirror, cap: 0 }) },
+                    o => Op::DuringUnwind { op: Box::new(o) },
+                },
                 o => o,
             })
             .collect();
